@@ -4,7 +4,7 @@ package harness
 //
 // op lines (one trace = `reset priv`, fixture `own` lines, then ops):
 //   own <obj> a<i>                                   fixture object <obj> is owned by actor i
-//   fix <what>                                       re-create a consumed fixture object
+//   fix <what>                                       re-create a consumed fixture object (tick | subject: c20_ibc_test.go)
 //   priv <module.Msg> <obj> <signer> <valid> <new>   deliver the message with `signer` in its signer
 //                                                    field; <valid> = the same content is accepted
 //                                                    when sent by the privileged signer (measured in
@@ -56,6 +56,7 @@ const (
 	oSeq2     = 8  // a second, non-proposer sequencer of r0
 	oProposer = 9  // the proposer role of r0 (owner = the actor whose sequencer is the current proposer)
 	oVote     = 10 // the sponsorship vote of a3 (addressed by the voter itself)
+	// oPlanRA2 = 11: rollapp r2 carrying the settled IRO plan (c20_ibc_test.go)
 	c20Actors = 5
 )
 
@@ -95,6 +96,7 @@ type c20Priv struct {
 	extT    []c20ExtTarget
 	stats   map[string]int
 	ready   bool
+	ibc     *c20Ibc // r2 with canonical client / channel / settled plan, recoverable clients (c20_ibc_test.go)
 }
 
 func coinA(n int64) sdk.Coin { return sdk.NewCoin("adym", math.NewInt(n)) }
@@ -217,6 +219,9 @@ func (p *c20Priv) setup() {
 	p.fixBuy(0)
 	// --- rollapp r1 (not launched) with an IRO plan, trading not yet enabled
 	p.fixPlan()
+	// --- rollapp r2: canonical light client, open channel, completed genesis bridge, settled plan (hours pass:
+	// before anything that is scheduled relative to the block time)
+	p.setupIBC()
 	// --- a stream (governance creates it; the streamer module account pays)
 	gs := f.App.IncentivesKeeper.GetGauges(f.Ctx)
 	if len(gs) == 0 {
@@ -398,9 +403,8 @@ func (p *c20Priv) defineKinds() {
 			NewGenesisInfo: rollapptypes.GenesisInfo{Bech32Prefix: "rol", GenesisChecksum: fmt.Sprintf("checksum%d", n), InitialSupply: math.NewInt(1000),
 				NativeDenom: rollapptypes.DenomMetadata{Display: "DEN", Base: "aden", Exponent: 18}}}, nil
 	})
-	add(&c20PK{key: "rollapp.MsgRollappFraudProposal", obj: -1, class: "authority", rare: true, build: func(p *c20Priv, s sdk.AccAddress, n, _ int) (sdk.Msg, error) {
-		ra, _ := p.f.App.RollappKeeper.GetRollapp(p.f.Ctx, p.ra0)
-		return &rollapptypes.MsgRollappFraudProposal{Authority: s.String(), RollappId: p.ra0, FraudHeight: 8, FraudRevision: ra.GetRevisionForHeight(8).Number}, nil
+	add(&c20PK{key: "rollapp.MsgRollappFraudProposal", obj: -1, class: "authority", rare: true, after: "recover", build: func(p *c20Priv, s sdk.AccAddress, n, _ int) (sdk.Msg, error) {
+		return p.fraudMsg(s) // on r2, the rollapp with a canonical client (c20_ibc_test.go)
 	}})
 	// ---- governance-routed legacy contents
 	gov("streamer.CreateStreamProposal", false, func(p *c20Priv, s sdk.AccAddress, n, _ int) (sdk.Msg, error) {
@@ -475,8 +479,9 @@ func (p *c20Priv) defineKinds() {
 	add(&c20PK{key: "iro.MsgEnableTrading", obj: oPlanRA, class: "owner", rare: true, build: func(p *c20Priv, s sdk.AccAddress, n, _ int) (sdk.Msg, error) {
 		return &irotypes.MsgEnableTrading{Owner: s.String(), PlanId: p.planID}, nil
 	}})
-	add(&c20PK{key: "iro.MsgClaimVested", obj: oPlanRA, class: "owner", build: func(p *c20Priv, s sdk.AccAddress, n, _ int) (sdk.Msg, error) {
-		return &irotypes.MsgClaimVested{Claimer: s.String(), PlanId: p.planID}, nil
+	// the settled plan of r2; a successful claim takes everything vested so far: time passes afterwards
+	add(&c20PK{key: "iro.MsgClaimVested", obj: oPlanRA2, class: "owner", after: "tick", build: func(p *c20Priv, s sdk.AccAddress, n, _ int) (sdk.Msg, error) {
+		return &irotypes.MsgClaimVested{Claimer: s.String(), PlanId: p.ibc.planID2}, nil
 	}})
 	// ---- owner-only: sequencer (addressed by the signer itself)
 	sq := func(key string, rare bool, b bf) {
@@ -701,6 +706,10 @@ func (p *c20Priv) exec(line string, f []string) string {
 			p.fixStream()
 		case "vote":
 			p.fixVote()
+		case "tick":
+			p.tick(time.Minute)
+		case "subject":
+			p.fixSubject()
 		case "app":
 			p.nonce++
 			p.deliverMust("add app", &rollapptypes.MsgAddApp{Creator: Actor(p.owners[oRollapp]).String(), Name: fmt.Sprintf("fixapp%d", p.nonce), RollappId: p.ra0, Description: "d", Image: "https://dymension.xyz/i.png", Url: "https://dymension.xyz", Order: int32(1000 + p.nonce)})
@@ -850,7 +859,7 @@ func (p *c20Priv) ownerRole(tok string) (int, bool) {
 
 func (p *c20Priv) generate(run func(string) string, nOps int) {
 	g := p.s.r.Rng
-	for _, o := range [][2]int{{oRollapp, 0}, {oSeq, 1}, {oLock, 2}, {oName, 3}, {oLP, 2}, {oBuy, 0}, {oPlanRA, 0}, {oCtrl, 3}, {oSeq2, 4}, {oProposer, 1}, {oVote, 3}} {
+	for _, o := range [][2]int{{oRollapp, 0}, {oSeq, 1}, {oLock, 2}, {oName, 3}, {oLP, 2}, {oBuy, 0}, {oPlanRA, 0}, {oCtrl, 3}, {oSeq2, 4}, {oProposer, 1}, {oVote, 3}, {oPlanRA2, 0}} {
 		run(p.own(o[0], o[1]))
 	}
 	// the proposer role follows the sequencer module's own notion of the current proposer
@@ -899,6 +908,9 @@ func (p *c20Priv) generate(run func(string) string, nOps int) {
 		}
 	}
 	for i := 0; i < nOps; i++ {
+		if g.Chance(1) {
+			p.genRecover(run) // the client frozen by the fixture (or still frozen by a fraud proposal)
+		}
 		k := p.kinds[g.Intn(len(p.kinds))]
 		priv := g.Chance(45)
 		if k.rare && priv && !g.Chance(25) {
@@ -935,7 +947,9 @@ func (p *c20Priv) generate(run func(string) string, nOps int) {
 		obs := run(fmt.Sprintf("priv %s %d %s %s %s", k.key, k.obj, signer, v, no))
 		syncProposer()
 		if obs == "ok" && priv && k.after != "" {
-			if k.after == "buy" {
+			if k.after == "recover" {
+				p.genRecover(run) // c20_ibc_test.go
+			} else if k.after == "buy" {
 				b := p.owners[oBuy]
 				if b == p.owners[oName] { // the owner of a name cannot bid for it
 					b = (b + 1) % c20Actors
